@@ -61,7 +61,7 @@ func c17(r *rng, tier string, o *out) {
 			fmt.Fprintf(&sb, " %d %d %d %s", abs, d.Len, b2i(!fail[i]), hx(d.Raw))
 		}
 		line := sb.String()
-		impl, viol := c17run(line)
+		impl, viol := runCase("C17", line)
 		idx := o.emit(line, impl, depth > 0 || len(fail) > 0)
 		o.count(fmt.Sprintf("depth=%d", depth))
 		o.count(fmt.Sprintf("failmode=%d", mode))
